@@ -10,6 +10,7 @@ from __future__ import annotations
 
 import dataclasses
 import datetime
+import functools
 import importlib.resources
 import inspect
 import sys
@@ -247,7 +248,9 @@ def render_coverage_report(
             template.render(
                 cov_report=cov_report,
                 highlight=pygments.highlight,
-                lexer=PythonLexer,
+                # Keep leading blank lines: the line numbers and coverage markers next
+                # to the code are those of the unstripped source.
+                lexer=functools.partial(PythonLexer, stripnl=False),
                 formatter=HtmlFormatter,
                 date=timestamp,
             )
